@@ -1,5 +1,6 @@
 import SJ.Drv.Mach
 import SJ.Drv.MachAp
+import SJ.Drv.MachRv
 import SJ.Drv.C03
 import SJ.Spec.WF
 import SJ.Spec.Schema
@@ -35,13 +36,19 @@ def allSame : String := "=|=|=|=|=|="
 def specCfgOf (c : Cfg) : Spec.Canon.Cfg := { po := c.po, fr := c.fr, ap := c.ap, limitOff := c.limitOff }
 
 /-- serialise with the given formatter, parse from the given source, compare -/
-def roundTrip (cfg : Cfg) (ext : Ext) (pretty : Bool) (src : Src) (v : JV) (implField : String := "") : String :=
+def roundTrip (cfg : Cfg) (ext : Ext) (pretty : Bool) (src : Src) (v : JV) (implField : String := "") (rv : Bool := false) : String :=
   let r := if pretty then serPretty ext defaultIndent (ofValue v) else serCompact ext (ofValue v)
   match r with
   | .error _ => "SERERR"
   | .ok bufs =>
     let bs := bufs.flatten
     let env : Env := { cfg := cfg, src := src, tgt := .value }
+    if rv then
+      -- `Value` under `raw_value`: the parser model that reads the private RawValue token (`Model.MachineRv`)
+      match Model.MachineRv.parseTop { env := env, rv := true } bs with
+      | .ok v' => if encJV v' == encJV v then "=" else "V" ++ encJV v'
+      | o => MachRv.showOutcome env bs implField o
+    else
     if cfg.ap then
       -- `Value` under `arbitrary_precision`: the parser model that reads the private Number token (`Model.MachineAp`)
       match Model.MachineAp.parseTop env bs with
@@ -63,7 +70,7 @@ def rtv : Handler := fun args impl =>
       let fields := impl.splitOn "|"
       let m := "|".intercalate
         ([(false, 0), (true, 3)].flatMap fun (p, k) =>
-          [(Src.str, 0), (Src.slice, 1), (Src.reader, 2)].map fun (s, j) => roundTrip cfg ext p s v (fields.getD (k + j) ""))
+          [(Src.str, 0), (Src.slice, 1), (Src.reader, 2)].map fun (s, j) => roundTrip cfg ext p s v (fields.getD (k + j) "") (MachRv.rvOfTag ct))
       { model := m,
         specs := if impl == allSame then [] else [s!"C04 Value round trip is not the identity: {impl}"] }
     | _, _ => bad "decode"
